@@ -71,28 +71,33 @@ func (fs *FS) wrapRelPathErr(err error) error {
 	if rootedErr != nil {
 		panic(rootedErr)
 	}
+	switch e := err.(type) {
+	case *hackpadfs.PathError:
+		errCopy := *e
+		errCopy.Path = relPath(errCopy.Path, rootedPath)
+		err = &errCopy
+	case *os.LinkError:
+		errCopy := &hackpadfs.LinkError{Op: e.Op, Old: e.Old, New: e.New, Err: e.Err}
+		errCopy.Old = relPath(errCopy.Old, rootedPath)
+		errCopy.New = relPath(errCopy.New, rootedPath)
+		err = errCopy
+	}
+	return err
+}
+
+// relPath returns OS path 'p' without the root path prefix, in slash form. The root itself is "."
+func relPath(p, rootedPath string) string {
 	const (
 		separator = string(filepath.Separator)
 		slash     = "/"
 	)
-	switch e := err.(type) {
-	case *hackpadfs.PathError:
-		errCopy := *e
-		errCopy.Path = strings.TrimPrefix(errCopy.Path, rootedPath)
-		errCopy.Path = strings.ReplaceAll(errCopy.Path, separator, slash)
-		errCopy.Path = strings.TrimPrefix(errCopy.Path, slash)
-		err = &errCopy
-	case *os.LinkError:
-		errCopy := &hackpadfs.LinkError{Op: e.Op, Old: e.Old, New: e.New, Err: e.Err}
-		errCopy.Old = strings.TrimPrefix(errCopy.Old, rootedPath)
-		errCopy.Old = strings.ReplaceAll(errCopy.Old, separator, slash)
-		errCopy.Old = strings.TrimPrefix(errCopy.Old, slash)
-		errCopy.New = strings.TrimPrefix(errCopy.New, rootedPath)
-		errCopy.New = strings.ReplaceAll(errCopy.New, separator, slash)
-		errCopy.New = strings.TrimPrefix(errCopy.New, slash)
-		err = errCopy
+	p = strings.TrimPrefix(p, rootedPath)
+	p = strings.ReplaceAll(p, separator, slash)
+	p = strings.TrimPrefix(p, slash)
+	if p == "" {
+		return "."
 	}
-	return err
+	return p
 }
 
 // Open implements hackpadfs.FS
